@@ -55,10 +55,13 @@ def exhaustive(ctx, sd):
         "MCsame": consts(RPs=['"r1"'], SubNames=['"a"', '"b"'], Bufs=[2], MaxBatches=3, MaxChanges=0, MaxInc=1, DefIds=[2] if q else [2, 3]),
         # metadata changes against waiter / run loop / batches (create, drop, redefine, creation failure)
         "MCmeta": consts(MaxBatches=1, MaxChanges=2, MaxInc=3, DefIds=[1, 3, 5], **one) if q else
-                  consts(MaxBatches=1, MaxChanges=3, MaxInc=4, DefIds=[1, 3, 5]),
+                  consts(MaxBatches=1, MaxChanges=2, MaxInc=3, DefIds=[1, 3, 5]),
         # Close against updates and batches in flight
         "MCclose": consts(MaxBatches=2, MaxChanges=1, MaxInc=2, Bufs=[2], DefIds=[2], **(one if q else {})),
     }
+    if not q:
+        # one subscription, four changes: every create / drop / redefine / failing-definition sequence
+        cfgs["MCmeta1"] = consts(MaxBatches=1, MaxChanges=4, MaxInc=5, DefIds=[1, 3, 5], **one)
     jobs = []
     for name, c in cfgs.items():
         ctx.write_cfg(sd, name + ".cfg", "Spec", c, INV, "Bounded")
@@ -87,26 +90,37 @@ def exhaustive(ctx, sd):
             raise Infra("negative control %s: the model of the code as found does not violate %s (%s)" % (n, neg[n][1], r["violated"]))
         if n.startswith("Probe_") and not r["violated"]:
             raise Infra("vacuity: %s is not reachable in the model" % n)
-        if r.get("zero_coverage"):
-            # RunBatch's 'panicked' disjuncts etc. are expressions, not actions: only whole actions are listed
-            raise Infra("actions never taken in Subscriber (%s): %s" % (n, r["zero_coverage"]))
+        if "zero_coverage" in r:
+            # vacuity guard on the FINAL coverage report (TLC also prints interim ones in which late actions are 0)
+            last = r["out"].split("The coverage statistics at")[-1]
+            zero = re.findall(r"^<(\w+) line \d+, col \d+ to line \d+, col \d+ of module Subscriber>: 0:0", last, re.M)
+            acts = re.findall(r"^<(\w+) line \d+, col \d+ to line \d+, col \d+ of module Subscriber>: \d+:\d+", last, re.M)
+            if zero or len(acts) < 18:
+                raise Infra("actions never taken in Subscriber (%s): %s (of %d actions listed)" % (n, zero, len(acts)))
 
 
 def generate(ctx, sd, variant):
     dev = ['"lateChannel"'] if variant == "late" else []
     # write-concurrency and buffer size are chosen per behaviour (Init): one JVM serves several configurations
     gens = {
-        "Gx": (ctx.pick(60, 500), dict(RPs=['"r1"', '"r2"'], SubNames=['"a"'], Ws=[1, 2], Bufs=[1, 2])),
-        "Gy": (ctx.pick(30, 300), dict(RPs=['"r1"'], SubNames=['"a"', '"b"'], Ws=[1, 2], Bufs=[1], DefIds=[1, 2, 4])),
+        "Gx": (ctx.pick(60, 300), dict(RPs=['"r1"', '"r2"'], SubNames=['"a"'], Ws=[1, 2], Bufs=[1, 2])),
+        "Gy": (ctx.pick(30, 150), dict(RPs=['"r1"'], SubNames=['"a"', '"b"'], Ws=[1, 2], Bufs=[1], DefIds=[1, 2, 4])),
     }
     if not ctx.quick():
-        gens["Gz"] = (300, dict(RPs=['"r1"', '"r2"'], SubNames=['"a"', '"b"'], Ws=[1, 2], Bufs=[1, 2]))
+        gens["Gz"] = (150, dict(RPs=['"r1"', '"r2"'], SubNames=['"a"', '"b"'], Ws=[1, 2], Bufs=[1, 2]))
     jobs = []
     for name, (n, kw) in gens.items():
         c = consts(DefIds=[1, 2, 3, 4, 5], MaxBatches=7, MaxChanges=5, MaxInc=4, Dev=dev, GenLen=ctx.pick(18, 26), MetaEvery=4)
         c.update(kw)
         ctx.write_cfg(sd, name + ".cfg", "GSpec", c, extra="INVARIANT Emit")
-        jobs.append(lambda nm=name, n=n: ctx.tlc_generate(sd, "SubscriberGen", nm + ".cfg", num=n, depth=250, timeout=ctx.pick(900, 2400))[:n])
+        # the simulator is single-threaded: chunks of at most 150 behaviours, each in its own JVM with its own seed
+        k = 0
+        while n > 0:
+            m = min(n, 150)
+            jobs.append(lambda nm=name, m=m, k=k: ctx.tlc_generate(sd, "SubscriberGen", nm + ".cfg", num=m, depth=250,
+                                                                   seed=ctx.seed + 1000 * k, timeout=ctx.pick(900, 2400))[:m])
+            n -= m
+            k += 1
     behs = []
     for b in parallel(jobs):
         behs += b
